@@ -105,10 +105,9 @@ impl<A: Adapter + 'static> Adapter for Flate2Adapter<A> {
     fn list_objects(&self, ext: &str) -> Result<Vec<String>> {
         let ext = ext.to_string() + ".flate"; // Change key to avoid mismatching cache objects
         let result = self.backend.list_objects(&ext)?;
-        Ok(result
-            .into_iter()
-            .map(|k| k.trim_end_matches(".flate").to_string())
-            .collect())
+        // The backend has already removed the extension (including the wrapper's own suffix);
+        // trimming again would also cut a key that itself ends with the suffix
+        Ok(result)
     }
 }
 
